@@ -18,6 +18,7 @@ one() {
     {
       echo "seed=$s $p exit=$rc"
       grep -E "^VIOLATION|CHECKER ERROR|Traceback|Error" $R/log | cut -c1-300 | sed "s/^/   seed=$s /"
+      [ $rc -eq 3 ] && grep -A12 "CHECKER ERROR" $R/log | cut -c1-700 | head -40 | sed "s/^/      | /"
       grep -h -A3 '"detail"' $R/out/replay/$p/*.json 2>/dev/null | cut -c1-400 | head -12 | sed "s/^/      /"
     } >> "$OUT"
   fi
